@@ -169,7 +169,9 @@ class World:
         self.main_wake = None        # callable(blocked_in) -> True when a deliverable signal is pending
         self.on_quiescent = None     # callable() -> True if it injected something that may wake a thread
         self.on_main_line = None     # callable() run at traced line boundaries of the main thread
-        self.main_waited = False     # the clock advanced while the main thread was blocked
+        self.main_waited = False     # the clock advanced while the watched (application) thread was blocked
+        self.watch = self.main       # the application thread (the main thread unless a check says otherwise)
+        self.on_clock_jump = None    # callable(t_from, t_to) when the clock jumps with every thread blocked
         self._last_read = None
         self._same_reads = 0
         self.at_line = 0             # line of curtsies/input.py at the current traced yield point (0: a seam call)
@@ -256,14 +258,18 @@ class World:
             self.on_main_line()
         self.yield_point()
 
-    def make_tracer(self, filename):
+    def make_tracer(self, filename, opcodes_for=None):
+        """trace function: every line of `filename` is a pre-emption point; opcodes_for(thread) -> True makes
+        every bytecode of that thread's frames in `filename` one as well"""
         def local(frame, event, arg):
-            if event == "line":
+            if event == "line" or event == "opcode":
                 self.line_point(frame.f_lineno)
             return local
 
         def tracer(frame, event, arg):
             if event == "call" and frame.f_code.co_filename == filename:
+                if opcodes_for is not None and opcodes_for(self.current):
+                    frame.f_trace_opcodes = True
                 return local
             return None
         return tracer
@@ -401,8 +407,10 @@ class World:
                     continue
                 return None
             if nxt_t > self.now:
-                if self.main.state == "blocked":
+                if self.watch.state == "blocked":
                     self.main_waited = True
+                    if self.on_clock_jump is not None:
+                        self.on_clock_jump(self.now, nxt_t)
                 self.now = nxt_t
             if self.env and self.env[0][0] <= self.now:
                 self._apply_env(heapq.heappop(self.env))
